@@ -551,8 +551,12 @@ class PoolWorld:
     def _cb_kinds(self, opts):
         return (opts.get("ecb", self.scen.get("ecb", "none")), opts.get("ccb", self.scen.get("ccb", "none")))
 
+    KNOWN_OPS = SYNC_OPS | CORO_OPS
+
     def run_op(self, i, pc, op):
         name, pos, opts = split_op(op)
+        if not isinstance(name, str) or name not in self.KNOWN_OPS:
+            raise RuntimeError(f"malformed scenario: unknown op {op!r}")
         p = opts.get("p", 0)
         pool = self.pools[p]
         try:
